@@ -212,6 +212,11 @@ def obligations(tier):
             obs.append(DOb(PID, f"{PID}/callee-contract/{parts[1]}/result ≥ eps ≥ 0" + ob.name[ob.name.index("["):], ob.function, ob.inputs, ob.call, claims, params=ob.params, pre=ob.pre,
                            instance=dict(ob.instance), clause="ensures result >= eps >= 0 (contract used by the sweeps)", solver_timeout_ms=ob.solver_timeout_ms,
                            check_domain=ob.check_domain, max_paths=ob.max_paths))
+    # ====================================================================== bounded stand-in (never counted as proved): end-to-end native survey - the real
+    # entry points, unstubbed, on seeded tensors; a cross-check of the composed contracts on what they assume away (degenerate data, option combinations)
+    from .c09 import BoundedOb
+    from . import e2e_native
+    obs.append(BoundedOb(f"{PID}/bounded/native survey: every returned factor, weight and core is finite and non-negative", "tensorly.decomposition:non_negative_parafac+non_negative_parafac_hals+non_negative_tucker+non_negative_tucker_hals", lambda: e2e_native.c10(tier), dict(orders="2-3 (4 thorough)", data="signed, non-negative, sparse, integer, all-negative", budgets="0, 1, 6"), "seed 0; SVD and random initialisation, with and without normalisation, FISTA and active-set core; calls raising LinAlgError('Singular matrix') are skipped", pid=PID))
     return obs
 
 
